@@ -49,6 +49,11 @@ class CallMixin:
                 st1, q = self.quantify(st, e.args[0], universal=(nm == "all"))
                 yield st1, mk_bool(q)
                 return
+            if nm == "isinstance" and len(e.args) == 2 and not e.keywords:
+                # the class operand is read syntactically (names, tuples, A | B): not evaluated
+                for st1, v in self.ev(e.args[0], st):
+                    yield from self.bi_isinstance(st1, [v, None], {}, e)
+                return
             if self.spec and nm == "old":
                 if st.old is None:
                     raise EngineError("old() without a pre-state")
@@ -112,7 +117,9 @@ class CallMixin:
         elif isinstance(fn, V) and isinstance(fn.t, TRef) and self.ct.contract_for(fn.t.cls, "__call__")[1] is not None:
             dc_, _ = self.ct.contract_for(fn.t.cls, "__call__")
             fr = FuncRef(self.ct.classes[dc_].module, f"{dc_}.__call__", bound_self=fn, cls=fn.t.cls)
-            yield from self.call_function(st, fr, [], {}, node)
+            con_ = self.ct.contract_for(fn.t.cls, "__call__")[1]
+            takes = [p for p in con_.sig if p != "self"]
+            yield from self.call_function(st, fr, list(args)[:len(takes)], kw if takes else {}, node)
         elif isinstance(fn, V) and isinstance(fn.t, TOpaque):
             # calling an opaque callable: unspecified call
             self.note_assumed(f"call of opaque callable {ast.unparse(node.func)}")
@@ -308,10 +315,32 @@ class CallMixin:
             raise EngineError(f"len of {t}")
 
     def _minmax(self, st, args, kw, node, is_min):
-        if len(args) == 1:
-            raise EngineError("min/max over an iterable")
         if "key" in kw:
             raise EngineError("min/max with key")
+        if len(args) == 1:
+            # min/max of a sequence of numbers: some element that bounds all others; ValueError when empty
+            if "default" in kw:
+                raise EngineError("min/max with default")
+            st, s = self.to_seq(st, args[0])
+            et = s.t.elem
+            if not isinstance(et, (TInt, TBool, TFP)):
+                raise EngineError(f"min/max over a sequence of {et}")
+            n, arr = s.zs[0], s.zs[1]
+            self.raise_(st, "ValueError", n == 0)
+            st = st.assume(n > 0)
+            r = fresh(et, "min" if is_min else "max")
+            i, w = z3.Int(fresh_name("i")), z3.Int(fresh_name("w"))
+            if isinstance(et, TFP):
+                bound = (z3.fpLEQ if is_min else z3.fpGEQ)(r.z, z3.Select(arr, i))
+                no_nan = z3.ForAll([i], z3.Implies(z3.And(0 <= i, i < n), z3.Not(z3.fpIsNaN(z3.Select(arr, i)))))
+            else:
+                bound = (r.z <= z3.Select(arr, i)) if is_min else (r.z >= z3.Select(arr, i))
+                no_nan = z3.BoolVal(True)
+            facts = z3.And(0 <= w, w < n, r.z == z3.Select(arr, w),
+                           z3.ForAll([i], z3.Implies(z3.And(0 <= i, i < n), bound)))
+            # (with a NaN among the elements CPython's answer depends on the order: nothing is claimed then)
+            yield st.assume(z3.Implies(no_nan, facts)), r
+            return
         acc = self.as_value(args[0])
         for b in args[1:]:
             b = self.as_value(b)
@@ -380,14 +409,16 @@ class CallMixin:
 
     def bi_float(self, st, args, kw, node):
         a = self.as_value(args[0])
-        if isinstance(a.t, (TInt, TBool, TFloat)):
+        if self.fp_mode and isinstance(a.t, (TInt, TBool)):
+            yield self.int_to_fp(st, a)          # IEEE doubles: correctly rounded, OverflowError when too large
+        elif isinstance(a.t, (TInt, TBool, TFloat)):
             yield st, coerce(a, FLOAT)
         elif isinstance(a.t, TFP):
             yield st, a
         else:
             if isinstance(a.t, TOpaque):
                 self.opq_may_raise(st, "float() of a value of unknown type")
-                r_ = fresh(FLOAT, "tofloat")
+                r_ = fresh(FP if self.fp_mode else FLOAT, "tofloat")
                 yield self.assume_wf(st, r_), r_
                 return
             raise EngineError(f"float() of {a.t}")
@@ -429,8 +460,17 @@ class CallMixin:
         a, c = args
         a = self.as_value(a)
         names = []
-        cn = node.args[1]
-        for n in (cn.elts if isinstance(cn, ast.Tuple) else [cn]):
+
+        def flat(cn):
+            if isinstance(cn, ast.Tuple):
+                for x in cn.elts:
+                    yield from flat(x)
+            elif isinstance(cn, ast.BinOp) and isinstance(cn.op, ast.BitOr):     # isinstance(x, A | B)
+                yield from flat(cn.left)
+                yield from flat(cn.right)
+            else:
+                yield cn
+        for n in flat(node.args[1]):
             names.append(n.attr if isinstance(n, ast.Attribute) else getattr(n, "id", None))
         yield st, mk_bool(self.isinstance_of(st, a, names))
 
@@ -457,7 +497,10 @@ class CallMixin:
             else:
                 py = {"int": (TInt, TBool), "bool": (TBool,), "float": (TFloat, TFP), "str": (TStr,),
                       "set": (TSet,), "dict": (TMap,), "list": (TSeq,), "tuple": (TTuple, TSeq),
-                      "OrderedSet": (TSet,), "frozenset": (TSet,)}.get(nm)
+                      "OrderedSet": (TSet,), "frozenset": (TSet,),
+                      "Number": (TInt, TBool, TFloat, TFP), "Real": (TInt, TBool, TFloat, TFP),
+                      "Sized": (TStr, TSet, TMap, TSeq, TTuple), "Iterable": (TStr, TSet, TMap, TSeq, TTuple),
+                      "Collection": (TStr, TSet, TMap, TSeq, TTuple)}.get(nm)
                 if py is None:
                     res.append(z3.BoolVal(False))
                 else:
@@ -738,6 +781,17 @@ class CallMixin:
             yield st, mk_bool(vals.f_isfin(a))
 
     bi_isinf, bi_isnan, bi_isfinite = bi_math_isinf, bi_math_isnan, bi_math_isfinite
+
+    def bi_math_ulp(self, st, args, kw, node):
+        a = self.as_value(args[0])
+        c = z3.simplify(a.z) if isinstance(a.t, TFP) else None
+        if isinstance(node.args[0], ast.Constant) and isinstance(node.args[0].value, (int, float)):
+            v = math.ulp(float(node.args[0].value))
+            yield st, (vals.mk_fp(v) if self.fp_mode else mk_float(v))
+            return
+        raise EngineError(f"math.ulp of a non-literal ({c})")
+
+    bi_ulp = bi_math_ulp
 
     def bi_math_isclose(self, st, args, kw, node):
         a, b = coerce(self.as_value(args[0]), FLOAT), coerce(self.as_value(args[1]), FLOAT)
